@@ -101,20 +101,17 @@ class counting_set {
           [this]() { this->count_cache_flush_all(); });
     }
     size_t slot = std::hash<key_type>{}(key) % count_cache_size;
+    // Evict a different key first. The flush can run handlers that use this
+    // slot, so re-check until the slot is free or already holds key.
+    while (m_count_cache[slot].second != -1 &&
+           !(m_count_cache[slot].first == key)) {
+      count_cache_flush(slot);
+    }
     if (m_count_cache[slot].second == -1) {
       m_count_cache[slot].first  = key;
       m_count_cache[slot].second = 1;
     } else {
-      // flush slot, fill with key
-      ASSERT_DEBUG(m_count_cache[slot].second > 0);
-      if (m_count_cache[slot].first == key) {
-        m_count_cache[slot].second++;
-      } else {
-        count_cache_flush(slot);
-        ASSERT_DEBUG(m_count_cache[slot].second == -1);
-        m_count_cache[slot].first  = key;
-        m_count_cache[slot].second = 1;
-      }
+      m_count_cache[slot].second++;
     }
     if (m_count_cache[slot].second == std::numeric_limits<int32_t>::max()) {
       count_cache_flush(slot);
@@ -125,23 +122,26 @@ class counting_set {
     auto key          = m_count_cache[slot].first;
     auto cached_count = m_count_cache[slot].second;
     ASSERT_DEBUG(cached_count > 0);
+    // Free the slot before sending: the send can run handlers that insert
+    // into this cache.
+    m_count_cache[slot].first  = key_type();
+    m_count_cache[slot].second = -1;
     m_map.async_visit(
         key,
         [](const key_type &key, size_t &count, int32_t to_add) {
           count += to_add;
         },
         cached_count);
-    m_count_cache[slot].first  = key_type();
-    m_count_cache[slot].second = -1;
   }
 
   void count_cache_flush_all() {
+    // Inserts made by handlers while flushing must register a new callback.
+    m_cache_empty = true;
     for (size_t i = 0; i < m_count_cache.size(); ++i) {
       if (m_count_cache[i].second > 0) {
         count_cache_flush(i);
       }
     }
-    m_cache_empty = true;
   }
   counting_set() = delete;
 
